@@ -342,10 +342,26 @@ def r15_6(ctx):
              ".numel": lambda s_, r, a, k, n: r.attrs["n"] if isinstance(r, Obj) and "n" in r.attrs else NotImplemented,
              "BSpline": lambda s_, r, a, k, n: Sym("spline", freeze(a[1]) if len(a) > 1 else None),
              "dict": lambda s_, r, a, k, n: ({freeze(p[0]): p[1] for p in a[0]} if a and isinstance(a[0], list) else (dict(k) if not a else NotImplemented))}
+    hooks[".is_scalar"] = lambda s_, r, a, k, n: True
     try:
         Sim(prog, hooks=hooks).call(f, [me, stage, Sym("opti"), Sym("c"), 0, 0, Sym("meta")], {})
     except LayoutUnknown as e:
         raise AnalysisError("add_inf_constraints could not be simulated: %s" % e)
+    # D81: a vector-valued constraint must be rejected before any spline is built (its entries would be paired with the Bernstein
+    # coefficients of the polynomial: x <= [1,2,3,4,5] certified b_j <= j+1 instead of x(t) <= 1)
+    scalar_calls = len(calls)
+    hooks[".is_scalar"] = lambda s_, r, a, k, n: False
+    outcome = "accepted"
+    try:
+        Sim(prog, hooks=hooks).call(f, [me, stage, Sym("opti"), Sym("c"), 0, 0, Sym("meta")], {})
+    except LayoutUnknown as e:
+        if str(e).startswith("raise reached"):
+            outcome = "rejected" if len(calls) == scalar_calls else "rejected after the certificate was built"
+        else:
+            raise AnalysisError("add_inf_constraints (vector-valued constraint) could not be simulated: %s" % e)
+    ctx.check(outcome == "rejected", "add_inf_constraints rejects a vector-valued constraint", detail="entries of a vector operand are paired with Bernstein coefficients instead of with time: the bound certified is not the bound declared",
+              expected="an exception when MX(c) is not scalar, before reinterpret_expr", found=outcome, fi=f)
+    del calls[scalar_calls:]
     if len(calls) != 1 or len(calls[0]) != 3:
         raise AnalysisError("add_inf_constraints: expected one reinterpret_expr(c, from, to) call")
     c, fr, to = calls[0]
